@@ -11,9 +11,13 @@ EXTENDS Expr
 \* ---- generator emits the environments themselves, see C02_Gen) ----------
 FnBase(fname)  == IF fname = "f" THEN 1 ELSE 2
 FnPosW(fname)  == IF fname = "f" THEN << 2, 3, 5 >> ELSE << 3, 5, 7 >>
-FnKwW(fname, k) == IF fname = "f" THEN (IF k = "k1" THEN 7 ELSE 11)
+\* (besides k1, k2 the functions accept keywords spelt like parameter names an implementation is
+\* likely to use itself: a keyword argument is data, whatever it is called)
+OtherKwW == [expr |-> 19, self |-> 23, args |-> 29, kwargs |-> 31, expression |-> 37, context |-> 41]
+FnKwW(fname, k) == IF k \in DOMAIN OtherKwW THEN OtherKwW[k] + (IF fname = "f" THEN 0 ELSE 1)
+                   ELSE IF fname = "f" THEN (IF k = "k1" THEN 7 ELSE 11)
                    ELSE (IF k = "k1" THEN 13 ELSE 17)
-KwNames == {"k1", "k2"}
+KwNames == {"k1", "k2"} \cup DOMAIN OtherKwW
 
 \* f(a1..an, k1=.., k2=..) = base + sum w_i*a_i + sum w_k*v_k ; injective enough to
 \* see argument order and keyword binding in the value
